@@ -240,6 +240,9 @@ void vr_case(uint64_t seed, uint64_t idx, int profile)
         switch (vr_below(&r, 6)) { case 0: na = nextafter(a, 1e9); break; case 1: na = nextafter(a, 0.0); break; case 2: na = a * (1.0 + 9e-16); break;
                                    case 3: na = a * (1.0 + 1e-13); break; case 4: na = a * (1.0 - 1e-12); break; default: na = a * (1.0 + 1e-9); break; }
         double pg = 0.05 + 0.9 * vr_unit(&r), npg = vr_chance(&r, 1, 2) ? nextafter(pg, 1.0) : pg * (1.0 - 1e-13);
+        /* one case in three: small success probabilities, the neighbour closer than 2.2e-16 in absolute terms (but millions of ulps away):
+         * the counts are of the order 1/p, so a divisor taken from the neighbour shows in most draws */
+        if (vr_chance(&r, 1, 3)) { static const double tiny[] = { 1e-8, 3e-7, 1e-5, 4e-9 }; pg = tiny[vr_below(&r, 4)] * (1.0 + vr_unit(&r)); npg = vr_chance(&r, 1, 2) ? pg + 2e-16 : pg - 1e-16; VR_CNT("histories_ending_on_a_geometric_p_closer_than_epsilon"); }
         int at = (int)vr_below(&r, 4);
         switch (vr_below(&r, 3)) { case 0: S[at].f = F_STDGAMMA; S[at].p[0] = a; break; case 1: S[at].f = F_GAMMA; S[at].p[0] = a; S[at].p[1] = 2.0; break; default: S[at].f = F_CHISQ; S[at].p[0] = 2.0 * a; na = na; break; }
         S[at + 1].f = F_GEOM; S[at + 1].p[0] = pg;
